@@ -40,22 +40,25 @@ def host_doc(host, attr, value):
     target = n("rect", {"id": "t", "width": [6.0, ""], "height": [4.0, ""]})
     before = n("rect", {"id": "b", "x": [1.0, ""], "width": [3.0, ""], "height": [2.0, ""], "attr_paint": {"fill": "red"}})
     after = n("circle", {"id": "c", "r": [3.0, ""], "cx": [20.0, ""], "transform": [["translate", [5.0, 5.0]]]})
+    # a sibling whose size is a percentage of the viewport: whatever the faulty element does to the viewport must be undone
+    pct = n("rect", {"id": "p", "x": [10.0, "%"], "y": [5.0, ""], "width": [50.0, "%"], "height": [25.0, "%"]})
     inner = n("polygon", {"id": "i", "points": [[0.0, 0.0], [5.0, 5.0], [5.0, 0.0]]})
     sems = {
         "rect": {"width": [5.0, ""], "height": [5.0, ""]}, "circle": {"r": [2.0, ""]}, "ellipse": {"rx": [2.0, ""], "ry": [1.0, ""]},
         "line": {"x2": [5.0, ""], "y2": [5.0, ""]}, "polyline": {"points": [[0.0, 0.0], [4.0, 4.0]]},
         "polygon": {"points": [[0.0, 0.0], [4.0, 4.0], [4.0, 0.0]]}, "path": {"d": "M0,0 L5,5"},
-        "g": {}, "svg": {"width": [10.0, ""], "height": [10.0, ""]}, "use": {"href": "t"}, "defs": {}, "text": {}, "unknown": {},
+        "g": {}, "svg": {"width": [10.0, ""], "height": [10.0, ""], "viewBox": [0.0, 0.0, 20.0, 20.0]}, "use": {"href": "t"}, "defs": {},
+        "text": {}, "unknown": {},
     }
     if host == "root":
-        root = n("svg", {"width": [100.0, ""], "height": [100.0, ""], "raw": [[attr, value]]}, [before, after])
+        root = n("svg", {"width": [100.0, ""], "height": [100.0, ""], "viewBox": [0.0, 0.0, 50.0, 50.0], "raw": [[attr, value]]}, [before, after, pct])
         faulty = []
     else:
         tag = {"unknown": "foo"}.get(host, host)
         a = n(tag, dict(sems[host], id="a", raw=[[attr, value]]))
         if host in ("g", "svg", "defs"):
             a["kids"] = [inner]
-        root = n("svg", {"width": [100.0, ""], "height": [100.0, ""]}, [n("defs", {}, [target]), before, a, after])
+        root = n("svg", {"width": [100.0, ""], "height": [100.0, ""]}, [n("defs", {}, [target]), before, a, after, pct])
         faulty = ["a"]
     doc = {"root": root, "cfg": {"ppi": 96.0, "reify": True, "color": "black", "width": None, "height": None, "transform": None}}
     dg.finish(doc)
